@@ -110,6 +110,27 @@ theorem C18_maxAfter (d : Int) (segs : List Seg) :
   have : (activeAt d segs).2 + (k - (activeAt d segs).2) = k := by omega
   rw [this]; exact hk
 
+/-- `SumMagnitude(segs)` is the plain total of the magnitudes: additive over concatenation and
+independent of the order of the segments (it does not read lengths, so it is not the area under
+the step function). -/
+theorem C18_sumMagnitude (a b : List Seg) :
+    sumMagnitude (a ++ b) = sumMagnitude a + sumMagnitude b ∧
+    sumMagnitude a = (a.map (·.mag)).sum ∧
+    (a.Perm b → sumMagnitude a = sumMagnitude b) := by
+  refine ⟨?_, ?_, ?_⟩
+  · induction a with
+    | nil => simp [sumMagnitude]
+    | cons s rest ih => simp only [List.cons_append, sumMagnitude, ih]; omega
+  · induction a with
+    | nil => rfl
+    | cons s rest ih => simp only [sumMagnitude, List.map_cons, List.sum_cons, ih]
+  · intro h
+    induction h with
+    | nil => rfl
+    | cons x _ ih => simp only [sumMagnitude, ih]
+    | swap x y l => simp only [sumMagnitude]; omega
+    | trans _ _ ih1 ih2 => rw [ih1, ih2]
+
 /-- `Cut(d, seg)` for `d ≥ 0` splits the segment's step function at `d` without changing it:
 `before` equals it before `d` and is `0` from `d` on, `after` is it translated left by `d`.
 For `d < 0` the documented `(nil, segment)` (flagged outside).  No hypothesis. -/
@@ -142,73 +163,44 @@ theorem C18_shift_no_nil_element (D cur : Int) (s : Seg) (l : Int) (hs : s.len =
     (h : cur + l > D) : (cutSeg (D - cur) s).after.isSome = true :=
   shiftNegLoop_after_isSome D cur s l hs h
 
-/-- `Sum` is pointwise addition — the statement at full strength is FALSE for the code as it is
-(`C18_sum_fails`); this is exactly how far it is true: the result is the pointwise sum everywhere,
-except that from the last edge on it is `0` when the length-less tails sum to a negative magnitude
-(`last.Magnitude <= 0` drops the final element). -/
-theorem C18_sum_exact (ls : List (List Seg)) (h : AllNonNeg ls) (t : Int) :
-    den (sum ls) t =
-      if tailSum ls < 0 ∧ 0 ≤ t ∧ (∀ e ∈ rawEdges ls, e.time ≤ t) then 0 else denSum ls t :=
-  sumEdges_den ls h (calcCuts ls) (sortEdges_perm _) (sortEdges_sorted _) t
+/-- `Sum` is pointwise addition: the step function of `Sum(lists...)` is the sum of the step
+functions of the lists, at every instant, for all lists with non-negative lengths — full strength,
+for the code after `fix:` 5957697 (the trailing open segment is dropped only when it is zero or no
+input is unbounded). -/
+theorem C18_sum (ls : List (List Seg)) (h : AllNonNeg ls) (t : Int) :
+    den (sum ls) t = denSum ls t :=
+  sumEdges_den_full ls h (calcCuts ls) (sortEdges_perm _) (sortEdges_sorted _) t
 
-/-- Known finding `C18/Sum/negative-infinite-tail-dropped`: `[2 for 2ns, -3 forever] + [1 for 4ns]`
-is `0` at `t = 4` where pointwise addition gives `-3`. -/
-theorem C18_sum_fails :
-    ∃ (ls : List (List Seg)) (t : Int),
-      (∀ l ∈ ls, ∀ s ∈ l, ∀ len, s.len = some len → 0 ≤ len) ∧ den (sum ls) t ≠ denSum ls t := by
-  refine ⟨[[⟨2, some 2⟩, ⟨-3, none⟩], [⟨1, some 4⟩]], 4, ?_, by decide⟩
-  intro l hl s hs len hlen
-  simp only [List.mem_cons, List.not_mem_nil, or_false] at hl
-  rcases hl with rfl | rfl
-  · simp only [List.mem_cons, List.not_mem_nil, or_false] at hs
-    rcases hs with rfl | rfl
-    · cases hlen; decide
-    · cases hlen
-  · simp only [List.mem_cons, List.not_mem_nil, or_false] at hs
-    subst hs; cases hlen; decide
+/-- For the record, the rule before the fix (`last.Magnitude <= 0`, model `sumLegacy`) was pointwise
+addition everywhere except from the last edge on when the length-less tails summed to a negative
+magnitude, where it gave `0` … -/
+theorem C18_sum_legacy_exact (ls : List (List Seg)) (h : AllNonNeg ls) (t : Int) :
+    den (sumLegacy ls) t =
+      if tailSum ls ≤ 0 ∧ 0 ≤ t ∧ (∀ e ∈ rawEdges ls, e.time ≤ t) then 0 else denSum ls t := by
+  have := sumEdges_den dropRuleLegacy (by decide) ls h (calcCuts ls) (sortEdges_perm _) (sortEdges_sorted _) t
+  simpa [dropRuleLegacy, sumLegacy] using this
 
-/-- `Sum` is pointwise addition whenever the magnitudes of the length-less tails of the summed lists
-do not add up to a negative number (in particular when no list is infinite, or all magnitudes are
-non-negative: `C18_sum_nonneg_magnitudes`). -/
-theorem C18_sum_partial (ls : List (List Seg)) (h : AllNonNeg ls) (htail : 0 ≤ tailSum ls) (t : Int) :
-    den (sum ls) t = denSum ls t := by
-  rw [C18_sum_exact ls h t]
-  have : ¬ tailSum ls < 0 := by omega
-  simp [this]
-
-theorem C18_sum_nonneg_magnitudes (ls : List (List Seg)) (h : AllNonNeg ls)
-    (hm : ∀ l ∈ ls, ∀ s ∈ l, 0 ≤ s.mag) (t : Int) : den (sum ls) t = denSum ls t := by
-  apply C18_sum_partial ls h
-  have tm : ∀ l : List Seg, (∀ s ∈ l, 0 ≤ s.mag) → 0 ≤ tailMag l := by
-    intro l
-    induction l with
-    | nil => intro _; simp [tailMag]
-    | cons s rest ih =>
-      intro hl
-      simp only [tailMag]
-      cases hs : s.len with
-      | none => exact hl s List.mem_cons_self
-      | some _ => exact ih (fun x hx => hl x (List.mem_cons_of_mem _ hx))
-  induction ls with
-  | nil => simp [tailSum]
-  | cons l ls ih =>
-    simp only [tailSum]
-    have h1 := tm l (hm l List.mem_cons_self)
-    have h2 := ih (fun x hx => h x (List.mem_cons_of_mem _ hx)) (fun x hx => hm x (List.mem_cons_of_mem _ hx))
-    omega
+/-- … so `[2 for 2ns, -3 forever] + [1 for 4ns]` was `0` at `t = 4` where pointwise addition gives `-3`
+(the defect `C18/Sum/negative-infinite-tail-dropped`, repaired), and the repaired `Sum` gives `-3`. -/
+theorem C18_sum_legacy_fails :
+    den (sumLegacy [[⟨2, some 2⟩, ⟨-3, none⟩], [⟨1, some 4⟩]]) 4 = 0 ∧
+    denSum [[⟨2, some 2⟩, ⟨-3, none⟩], [⟨1, some 4⟩]] 4 = -3 ∧
+    den (sum [[⟨2, some 2⟩, ⟨-3, none⟩], [⟨1, some 4⟩]]) 4 = -3 := by
+  refine ⟨by decide, by decide, by decide⟩
 
 /-- `sort.Slice` is not a stable sort.  Whatever time-sorted arrangement of the edges it produces,
 the segment list built from it is the one the model computes with its stable insertion sort:
 integer addition commutes, so the order among equal-time edges is irrelevant. -/
 theorem C18_sum_any_sort (ls : List (List Seg)) (es : List Edge)
-    (hp : es.Perm (rawEdges ls)) (hs : SortedT es) : sumEdges es = sum ls :=
-  sumEdges_order_irrelevant es (calcCuts ls) (hp.trans (sortEdges_perm _).symm) hs (sortEdges_sorted _)
+    (hp : es.Perm (rawEdges ls)) (hs : SortedT es) :
+    sumEdges (dropRule (anyInfinite ls)) es = sum ls :=
+  sumEdges_order_irrelevant _ es (calcCuts ls) (hp.trans (sortEdges_perm _).symm) hs (sortEdges_sorted _)
 
 /-- The literal rendering of the loop of `Sum` (a slice appended to, its last element updated in
 place, then trimmed — `sumGo`, the version the driver executes against the real code) computes the
 same list as the functional form `sum` all theorems above are stated about. -/
 theorem C18_sum_go_loop (ls : List (List Seg)) : sumGo ls = sum ls :=
-  sumGoEdges_eq (calcCuts ls)
+  sumGoEdges_eq _ (calcCuts ls)
 
 /-- "Never modify their arguments", for the one operation that updates memory in place: run on an
 explicit heap of segment cells, from ANY initial heap `H0` (holding the argument cells), the loop of
@@ -227,14 +219,15 @@ theorem C18_args_unchanged_sum (H0 : List Seg) (cuts : List Edge) :
   rw [h1, List.getElem?_append_left hi]
 
 /-! Non-vacuity: lists with zero-length, finite and length-less segments satisfy `NonNeg`; the
-operations take non-trivial values on them; the hypothesis of `C18_sum_partial` is satisfiable with
-negative magnitudes present. -/
+operations take non-trivial values on them, negative magnitudes and negative unbounded tails included. -/
 example : NonNeg [⟨2, some 2⟩, ⟨5, some 0⟩, ⟨-3, none⟩] := nonNeg_of_all _ (by decide)
-example : AllNonNeg [[⟨2, some 2⟩, ⟨-3, some 1⟩, ⟨1, none⟩], [⟨-1, some 4⟩]] ∧
-    0 ≤ tailSum [[⟨2, some 2⟩, ⟨-3, some 1⟩, ⟨1, none⟩], [⟨-1, some 4⟩]] := by
-  refine ⟨fun l hl => ?_, by decide⟩
+example : AllNonNeg [[⟨2, some 2⟩, ⟨-3, some 1⟩, ⟨-1, none⟩], [⟨-1, some 4⟩]] := by
+  intro l hl
   simp only [List.mem_cons, List.not_mem_nil, or_false] at hl
   rcases hl with rfl | rfl <;> exact nonNeg_of_all _ (by decide)
+example : sum [[⟨2, some 2⟩, ⟨-3, some 1⟩, ⟨-1, none⟩], [⟨-1, some 4⟩]]
+    = [⟨1, some 2⟩, ⟨-4, some 1⟩, ⟨-2, some 1⟩, ⟨-1, none⟩] := by decide
+example : sum [[⟨2, some 2⟩, ⟨0, none⟩]] = [⟨2, some 2⟩] := by decide
 example : sum [[⟨2, some 2⟩, ⟨-3, some 1⟩, ⟨1, none⟩], [⟨-1, some 4⟩]]
     = [⟨1, some 2⟩, ⟨-4, some 1⟩, ⟨0, some 1⟩, ⟨1, none⟩] := by decide
 example : magnitudeAt 2 [⟨2, some 2⟩, ⟨5, some 0⟩, ⟨-3, none⟩] = (-3, true) := by decide
